@@ -21,6 +21,7 @@ RULE = (
     "envelope, not authorised (public key only, depth 3)}; the live KeyCache is shared along a history (prefix sharing by deep copy, cross-checked against replay from scratch). "
     "mixed part: histories of length <=3 over 17 operations {load; 4 operations on one triple x {sync, async} x {caller is a group member, caller is not (public key only)}} on one shared cache. "
     "thread part: 6 pairs of sync calls from two OS threads on one shared cache under a controlled scheduler (scheduling point = function entry (quick) / every source line (thorough) of dpapi_ng), every schedule with <= 1 preemption (thorough: one pair with <= 2), then every probe. "
+    "cancellation part: the same two-call schedules where, in addition, the application may cancel a call that waits for the DC (asyncio.Task.cancel; bound 2): the cancelled call ends cancelled, every other call and every later probe is transparent. "
     "concurrent part: 2 (quick) / 3 (thorough) async calls on the same triple sharing one cache on the virtual loop; choice point = which task starts / which pending connection "
     "gets its next reply; deviation bound 2 / 3 from run-to-completion order; every execution is continued by each sequential probe operation. Oracle: (1) every call returns within the "
     "step budget with the known plaintext / a blob the reference decryptor opens at key id = now, exceptions only where a fresh cache gives the same; (2) reference model covered[T]=max "
@@ -242,7 +243,7 @@ def crosscheck(w, acc, policy, hist, status, value) -> None:
 # -- concurrent exploration ------------------------------------------------------------------------------------
 
 
-def run_concurrent(w, policy: str, ops: t.Sequence[t.Any], ch: explorer.Chooser, preload: bool = False):
+def run_concurrent(w, policy: str, ops: t.Sequence[t.Any], ch: explorer.Chooser, preload: bool = False, cancellable: bool = False):
     """returns (results per task, cache, dc, event order)"""
     import dpapi_ng
 
@@ -260,6 +261,8 @@ def run_concurrent(w, policy: str, ops: t.Sequence[t.Any], ch: explorer.Chooser,
             return r, wtr
 
         gates: t.List[asyncio.Future] = []
+        tasks: t.List[t.Any] = []
+        cancelled: t.Set[int] = set()
         started = [False] * n
 
         async def gated(i: int):
@@ -284,6 +287,11 @@ def run_concurrent(w, policy: str, ops: t.Sequence[t.Any], ch: explorer.Chooser,
                             break
             if not menu:
                 return False
+            if cancellable:
+                # the application cancels a call that is waiting for the DC (asyncio.Task.cancel): listed last, so it is always a deviation
+                for i in range(n):
+                    if started[i] and i not in cancelled and not tasks[i].done() and any(getattr(wtr, "owner", None) == f"T{i}" for wtr, _ in hub.pending):
+                        menu.append((f"T{i}:cancel", ("cancel", i)))
             k = ch.choose(len(menu), ",".join(m[0] for m in menu)) if len(menu) > 1 else 0
             kind, arg = menu[k][1]
             current[0] = int(menu[k][0][1 : menu[k][0].index(":")])
@@ -291,6 +299,12 @@ def run_concurrent(w, policy: str, ops: t.Sequence[t.Any], ch: explorer.Chooser,
                 started[arg] = True
                 order.append(f"s{arg}")
                 gates[arg].set_result(None)
+            elif kind == "cancel":
+                cancelled.add(arg)
+                order.append(f"x{arg}")
+                tasks[arg].cancel()
+                # whatever the DC still had in flight for that call is dropped with its connection
+                hub.pending[:] = [(wtr, ch_) for wtr, ch_ in hub.pending if getattr(wtr, "owner", None) != f"T{arg}"]
             else:
                 hub.release(arg)
             return True
@@ -303,7 +317,7 @@ def run_concurrent(w, policy: str, ops: t.Sequence[t.Any], ch: explorer.Chooser,
         try:
             with seams.patched(asyncio, "open_connection", open_tagged):
                 gates.extend(loop.create_future() for _ in range(n))
-                tasks = [loop.create_task(gated(i), name=f"T{i}") for i in range(n)]
+                tasks.extend(loop.create_task(gated(i), name=f"T{i}") for i in range(n))
                 status = "ok"
                 try:
                     budget.run(STEP_LIMIT * n, _drain, loop, tasks)
@@ -335,15 +349,16 @@ def _drain(loop: vloop.VirtualLoop, tasks) -> None:
             raise vloop.Deadlock("tasks pending but nothing to run or deliver")
 
 
-def concurrent_shard(w, acc, policy: str, ops, bound: int, preload: bool) -> None:
+def concurrent_shard(w, acc, policy: str, ops, bound: int, preload: bool, cancellable: bool = False) -> None:
     probes = [op for op in OPS if op[0] != "load" and (op[1] == ops[0][1] or op[0] == "prot")]
 
     def body(ch: explorer.Chooser):
-        return run_concurrent(w, policy, ops, ch, preload)
+        return run_concurrent(w, policy, ops, ch, preload, cancellable)
 
     def on_exec(ch: explorer.Chooser, res) -> None:
         status, results, cache, dc, order = res
-        case = ["conc", policy, [list(o) for o in ops], ch.choices]
+        case = ["conc-cancel" if cancellable else "conc", policy, [list(o) for o in ops], ch.choices]
+        was_cancelled = {int(o[1:]) for o in order if o.startswith("x")}
         acc.ev()
         acc.states += 1
         acc.transitions += len(ch.trace) + len(ops)
@@ -355,10 +370,16 @@ def concurrent_shard(w, acc, policy: str, ops, bound: int, preload: bool) -> Non
         m0 = new_model()
         # each task individually: transparency (economy is not demanded of concurrent first calls)
         for i, (st, v) in enumerate(results):
+            if i in was_cancelled:
+                if st != "exc" or v[0] != "CancelledError":
+                    acc.violate("conc.cancelled-task-did-not-end-cancelled", case + [f"task{i}"], {"result": repr((st, v))[:120]}, size=len(ch.choices))
+                acc.outcome("cancelled")
+                continue
             sub = refdc.DC([w["rk"]])  # empty log: economy not judged here
             mm = {"root": False, "cov": {}}
             check_result(w, mm if not model_covered(mm, ops[i]) else mm, ops[i], policy, st, v, sub, case + [f"task{i}"], acc, tag="conc.")
-        m = model_update(w, m0, ("conc",), dc)
+        # a cancelled call may or may not have stored what the DC sent it: after a cancellation only transparency is demanded of the probes
+        m = model_update(w, m0, ("conc",), dc) if not was_cancelled else new_model()
         acc.stat_max("getkey_calls_concurrent", len(dc.getkey_calls))
         for pr in probes:
             c2 = copy.deepcopy(cache)
@@ -464,6 +485,8 @@ def shards(tier: str, seed: int):
     for pol in ("exact", "later"):
         for pr in pairs:
             out.append(["conc", pol, pr, 2])
+    for pr in pairs[:6] + pairs[-7:]:
+        out.append(["conc-cancel", "exact", pr, 2])
     if tier == "thorough":
         trip = [[["unprot", "T1", [10, 12]], ["unprot", "T1", [3, 5]], ["unprot", "T1", [3, 20]]], [["unprot", "T3", [3, 5]], ["unprot", "T3", [31, 31]], ["unprot", "T3", [20, 0]]],
                 [["unprot", "T1", [3, 5]], ["prot", "T1", True], ["unprot", "T1", [10, 12]]], [["unprot", "T1", [3, 20]], ["unprot", "T1", [3, 5]], ["prot", "T1", False]]]
@@ -504,7 +527,7 @@ def run_shard(shard, tier, seed, acc) -> None:
         thread_shard(w, acc, pol, [_norm(o) for o in ops], bound, coarse, part, parts)
     else:
         _, pol, ops, bound = shard
-        concurrent_shard(w, acc, pol, [_norm(o) for o in ops], bound, False)
+        concurrent_shard(w, acc, pol, [_norm(o) for o in ops], bound, False, cancellable=shard[0] == "conc-cancel")
 
 
 def replay(case, seed, acc) -> None:
@@ -534,13 +557,15 @@ def replay(case, seed, acc) -> None:
         _, pol, ops, choices = case[:4]
         ops = [_norm(o) for o in ops]
         ch = explorer.Chooser(choices)
-        status, results, cache, dc, order = run_concurrent(w, pol, ops, ch)
+        status, results, cache, dc, order = run_concurrent(w, pol, ops, ch, cancellable=case[0] == "conc-cancel")
         if status != "ok":
             acc.violate(f"conc.{status}", case, {"order": order})
             return
+        was_cancelled = {int(o[1:]) for o in order if o.startswith("x")}
         for i, (st, v) in enumerate(results):
-            check_result(w, new_model(), ops[i], pol, st, v, refdc.DC([w["rk"]]), case, acc, tag="conc.")
-        m = model_update(w, new_model(), ("conc",), dc)
+            if i not in was_cancelled:
+                check_result(w, new_model(), ops[i], pol, st, v, refdc.DC([w["rk"]]), case, acc, tag="conc.")
+        m = model_update(w, new_model(), ("conc",), dc) if not was_cancelled else new_model()
         if len(case) > 4 and isinstance(case[4], list) and case[4] and case[4][0] == "probe":
             pr = _norm(case[4][1:])
             st, v, pdc = run_op(w, copy.deepcopy(cache), pr, pol)
